@@ -205,7 +205,7 @@ def _make_exc(token):
 # ---------------------------------------------------------------------------
 # program generation
 
-def gen_program(rng, focus="c09", maxt=None):
+def gen_program(rng, focus="c09", maxt=None, busy=False):
     """
     A small client program. JSON-able (replayable).
     ops: start | stop | enq tok kind | wait tok | join t | sleep ms | open gid | go i | sample | barrier n
@@ -215,7 +215,7 @@ def gen_program(rng, focus="c09", maxt=None):
     prog = {"max": maxt, "min": mint, "timeout": rng.choice([0.005, 0.01, 0.02, 0.05]),
             "queue_size": 0 if rng.random() < 0.9 else rng.choice([1, 2, 3]),
             "controller": [], "enqueuers": []}
-    n_enq = rng.choice([0, 0, 1, 1, 2])
+    n_enq = rng.choice([0, 0, 1, 1, 2]) if not busy else 2
     counter = [0]
     gates = [0]
 
@@ -294,10 +294,10 @@ def gen_program(rng, focus="c09", maxt=None):
         went += 1
     for i in range(n_enq):
         eops = []
-        for _ in range(rng.randint(1, 5)):
+        for _ in range(rng.randint(1, 5) if not busy else rng.randint(8, 14)):
             if rng.random() < 0.25:
                 eops.append(["sleep", rng.choice([0, 1, 3])])
-            eops.append(new_task("e%d_" % i))
+            eops.append(new_task("e%d_" % i, allow_gate=not busy))
         prog["enqueuers"].append(eops)
     return prog
 
